@@ -141,7 +141,7 @@ def shrink(mod, viol, budget=60):
 
 def write_replay(pid, seed, n, viol):
     os.makedirs(REPLAY_DIR, exist_ok=True)
-    path = os.path.join(REPLAY_DIR, "%s-%d-%d.json" % (pid, seed, n))
+    path = os.path.join(REPLAY_DIR, "%s-%d-%s.json" % (pid, seed, n))
     doc = {"property": pid, "signature": viol["signature"], "what": viol.get("what", ""),
            "scenario": viol["scenario"], "digest": viol.get("digest"), "repo_rev": core.repo_rev()}
     with open(path, "w") as f:
@@ -294,6 +294,10 @@ def run_check(pid, tier, seed, workers, deadline_s=None, n_override=None, do_shr
         if sig in known_sigs:
             known_hit.append(sig)
             print("KNOWN-FINDING: property=%s %s -- %s" % (pid, sig, known_sigs[sig].get("what", "")))
+            try:
+                write_replay(pid, seed, "known%d" % len(known_hit), vs[0])   # a current replay of the recorded finding
+            except Exception:
+                pass
             continue
         unlisted.append(sig)
         v = vs[0]
